@@ -249,6 +249,7 @@ func (g gent) String() string { return fmt.Sprintf("%s %d@%s", kindNames[g.kind]
 
 // Run decides C17.
 func Run(rep *report.Report, tier string) {
+	guardRep = rep
 	thorough := tier == "thorough"
 	var mu sync.Mutex
 	evals := 0
@@ -695,6 +696,9 @@ func errorCases() []errCase {
 	return out
 }
 
+// guardRep receives a violation when a case panics (see report.Guard).
+var guardRep *report.Report
+
 func par(items []int, f func(int)) {
 	var wg sync.WaitGroup
 	ch := make(chan int)
@@ -703,7 +707,7 @@ func par(items []int, f func(int)) {
 		go func() {
 			defer wg.Done()
 			for i := range ch {
-				f(i)
+				guardRep.Guard(fmt.Sprintf("case %d", i), map[string]any{"case_index": i}, func() { f(i) })
 			}
 		}()
 	}
